@@ -1036,7 +1036,18 @@ def run_field_codec(nested_k=1, only=None) -> core.Stats:
 # ---------------------------------------------------------------------------
 # driver
 # ---------------------------------------------------------------------------
+def broken_enums(st: core.Stats):
+    for name, (v, err) in sorted(fe.BROKEN_ENUMS.items()):
+        st.violation('enum_value', {'enum': name}, f'{name}({v}) cannot be constructed ({err}): a field of this type cannot carry the value, so packets holding it neither build nor parse', {'mode': 'enum_value', 'enum': name, 'value': v})
+
+
 def work(arg) -> core.Stats:
+    st = _work(arg)
+    broken_enums(st)
+    return st
+
+
+def _work(arg) -> core.Stats:
     what = arg[0]
     fe.set_fill_seed(arg[-1])
     if what == 'class':
@@ -1101,6 +1112,7 @@ def run(ctx: core.Context) -> int:
     results = core.pmap(work, [items[i] for i in order], jobs)
     for st in results:
         ctx.sub(st.name).merge(st)
+    broken_enums(ctx.sub('field_codec'))
 
     total_classes = sum(len(d) for d in regs.values())
     ev = ctx.sub('events')
@@ -1158,6 +1170,43 @@ def replay(v: core.Violation):
     c = v.case
     fe.set_fill_seed(c.get('fill_seed', 0))
     registries()
+    if c.get('mode') == 'enum_value':
+        import importlib
+
+        mod, _, qual = c['enum'].partition('.bumble' if False else '\0')
+        parts = c['enum'].split('.')
+        for i in range(len(parts) - 1, 0, -1):
+            try:
+                obj = importlib.import_module('.'.join(parts[:i]))
+            except ImportError:
+                continue
+            for a in parts[i:]:
+                obj = getattr(obj, a)
+            break
+        import enum as _enum
+        import inspect
+        from bumble import hci as _hci
+
+        def enums(ns, depth=0):
+            for a in list(vars(ns).values()):
+                if inspect.isclass(a) and a.__module__ == _hci.__name__:
+                    if issubclass(a, _enum.IntEnum):
+                        yield a
+                    elif depth < 2:
+                        yield from enums(a, depth + 1)
+
+        for other in enums(_hci):  # the same value through every other enumeration of the module first
+            try:
+                other(c['value'])
+            except Exception:  # noqa
+                pass
+        try:
+            obj(c['value'])
+            return []
+        except ValueError:
+            return []
+        except Exception as e:  # noqa
+            return [f'{c["enum"]}({c["value"]}) raises {type(e).__name__}: {e}']
     sub = c['sub']
     if sub == 'class':
         st = run_class(c['reg'], c['code'], 0, only_dev=[list(d) for d in c['dev']], only_variant=c['variant'])
